@@ -85,6 +85,7 @@ def cases_of(job, res, raise_mode):
             out.append({"name": "%s/%s" % (job["_name"], nm), "lang": r.name, "method": mid,
                         "rows": [G.norm_row(x) for x in sl], "cfg": edges.get(mid, []),
                         "fallthrough": r.fallthrough, "switch_break": r.switch_break, "raise_mode": mode,
+                        "check": "cfg", "loop_bound": 2, "rd": {},
                         "skeleton": json.dumps(body), "source": r.method(nm, body)})
     return out
 
